@@ -367,6 +367,11 @@ def _convert_csp_to_z3(csp: list[FNode]) -> list:
     return [converter.convert(expr) for expr in csp]
 
 
+def _int_values(m: Any) -> dict[str, int]:
+    """Integer-valued constants of a z3 model (the optimiser may add Boolean helper constants)."""
+    return {d.name(): m[d].as_long() for d in m.decls() if z3.is_int_value(m[d])}
+
+
 def solve_and_get_model(
     csp: list[FNode], minimize_vars: list[str] | None = None
 ) -> dict[str, int] | None:
@@ -389,7 +394,7 @@ def solve_and_get_model(
         s.add(*z3_csp)
         if s.check() == z3.sat:
             m = s.model()
-            return {d.name(): cast(Any, m[d]).as_long() for d in m.decls()}
+            return _int_values(m)
         return None
 
     # Otherwise build an optimiser.
@@ -404,7 +409,7 @@ def solve_and_get_model(
     # Enumerate first Pareto-optimal model (suffices since *priority='pareto'*).
     if opt.check() == z3.sat:
         m = opt.model()
-        return {d.name(): cast(Any, m[d]).as_long() for d in m.decls()}
+        return _int_values(m)
 
     return None
 
@@ -453,7 +458,7 @@ def solve_pareto_front(
     results: list[dict[str, int]] = []
     while opt.check() == z3.sat:
         m = opt.model()
-        results.append({d.name(): cast(Any, m[d]).as_long() for d in m.decls()})
+        results.append(_int_values(m))
         if max_solutions is not None and len(results) >= max_solutions:
             break
 
